@@ -244,6 +244,8 @@ func genCols(r *Rand, n int, oids []uint32) []ColSpec {
 		name := r.Ident(r.Range(1, 6))
 		if r.Chance(1, 8) {
 			name = r.Str(r.Intn(6)) // arbitrary, possibly empty, multi-byte
+		} else if r.Chance(1, 25) {
+			name = r.Ident(r.PickInt(62, 63, 64, 65, 200, 1000)) // around NAMEDATALEN and beyond
 		}
 		cols[i] = ColSpec{Name: name, OID: oids[r.Intn(len(oids))], Width: int16(r.PickInt(0, -1, 4, 256)), Table: int32(r.Intn(3)), Attr: int16(r.Intn(4))}
 	}
